@@ -43,6 +43,14 @@ CLAIMED = {
    text="Each constant, is_/get_/new_/set_/clear_, empty/all/is_empty/as_int, bit operator and integer conversion of all generated flag types and synthesised flag structs is reduced to a bitwise normal form and compared with the set-algebra specification computed from the wowm flag; holds for every raw value because the normal form is exact for bitwise expressions.",
    note="trusts rustc const evaluation/type resolution; two genuine defects are listed in known_findings.json (clear_* uses reverse_bits; signed narrower sources are reinterpreted then widened)",
    ref="§3 C12"),
+ "C15": dict(level="other", tech="bit-field layout partition and decision-table extraction from typed HIR: (shift,mask) extractors vs datetime.md, comparator/table folding of the TryFrom<u32> acceptance predicate, leap-year expression folded over all 256 years",
+   text="The six bit-field extractors are reduced to (shift, mask) pairs that must partition the 32 bits exactly as datetime.md documents; new() must pack with the same shifts; every accessor must go through its own extractor; the acceptance predicate of TryFrom<u32> is extracted as per-field decision tables (comparators, Month/Weekday conversion tables, month-length table, leap-year expression constant-folded for all 256 years) whose accepted value set must equal the calendar's zero-based ranges. Decided for every 32-bit value through the tables, not by enumeration.",
+   note="the weekday predictor's Rata Die arithmetic is a numerical result and is not decided; trusts rustc resolution; one genuine defect (day index == month length accepted) was repaired by a fix: commit",
+   ref="§3 C15"),
+ "C19": dict(level="other", tech="rustc type-check of the feature matrix (cargo check per feature set; quick = pairwise covering subset, thorough = powerset) + syn scan of unexpanded sources: every cfg at item level, no cfg-duplicated item names",
+   text="D1: cargo check --offline --no-default-features --features <set> succeeds for every feature set of wow_login_messages, wow_world_base and wow_world_messages (quick: 21 pairwise-covering sets; thorough: full powersets). D2: all 9,622 cfg attributes in the 2,265 library source files sit at item level (never on a statement, expression, field, variant, arm or parameter) and no item name is defined twice in a module under different cfgs, so a codec present in two configurations is the same token stream in both.",
+   note="rustc is the deciding analysis for D1; D2 is what makes 'same codecs in every configuration' a structural fact; behaviour under a configuration is otherwise covered by the per-property checks on the union configuration",
+   ref="§3 C19"),
 }
 NA_REASONS = {}
 DEFAULT_NA = "check under construction in this round (see DESIGN.md); will be claimed once its rule module is committed"
